@@ -782,7 +782,7 @@ func (em *emitter) emitSelector(v *ast.Selector, reg int8, dstType reflect.Type)
 
 	// Struct field.
 	expr := v.Expr
-	if op, ok := expr.(*ast.UnaryOperator); ok && op.Op == ast.OperatorPointer {
+	if op, ok := expr.(*ast.UnaryOperator); ok && op.Op == ast.OperatorPointer && em.typ(expr).Kind() == reflect.Struct {
 		expr = op.Expr
 	}
 	typ := em.typ(expr)
@@ -974,7 +974,7 @@ func (em *emitter) emitUnaryOp(expr *ast.UnaryOperator, reg int8, regType reflec
 				return
 			}
 			expr := operand.Expr
-			if op, ok := expr.(*ast.UnaryOperator); ok && op.Op == ast.OperatorPointer {
+			if op, ok := expr.(*ast.UnaryOperator); ok && op.Op == ast.OperatorPointer && em.typ(expr).Kind() == reflect.Struct {
 				expr = op.Expr
 			}
 			operandExprType := em.typ(expr)
